@@ -48,6 +48,8 @@ ORIGINS = [
     ("http", "a.test", 8080),
     ("http", "b.test", 80),
     ("https", "c.test", 443),
+    ("https", "a.test", 8080),  # same host and port as an http origin above: only the scheme differs
+    ("http", "sub.a.test", 80),  # a sub-domain of a.test: host-only jar cookies of a.test do not go there
 ]
 STATUSES = [301, 302, 303, 307, 308]
 SECRET_AUTH = "Bearer SECRET-AUTH-0123"
